@@ -674,3 +674,172 @@ func describeIntSlice(in *absInterp, v aval) string {
 	}
 	return fmt.Sprint(out)
 }
+
+func init() {
+	register(&Rule{ID: "SPEC-parseint-prefix", Props: []string{"C06", "C05", "C13"}, Min: 1,
+		Doc: "E (exhaustive abstract evaluation of the text handling of parseInt, 15.1.2.2 steps 3-13): for a set of inputs around the sign and the hexadecimal prefix (\"\", \"-\", \"+\", \"0x\", \"0X1f\", \"-0x1\", \"0x1g\", \"0xg\", \"00x1\", \"x1\", \"1\", \"10\", \"z\", \"7 \") and the radices 0, 1, 2, 10, 16, 36, 37 the function's own SSA decides which digit string and radix reach the numeric conversion (a hook that records them), with which sign, and when the answer is NaN; compared with the algorithm of the specification. A prefix test that needs one character too many (`parseInt(\"0x\")` is NaN, not 0), is case-sensitive, or is applied for radix 10 shows up here",
+		Run: ruleSpecParseIntPrefix})
+}
+
+func ruleSpecParseIntPrefix(c *Ctx, r *R) {
+	w := defineWorldFor(c)
+	if w == nil {
+		r.undecided("world", "-", "UNRESOLVED: the abstract model of SPEC-define-own is not available")
+		return
+	}
+	m := w.m
+	fn := c.Shape().boundSSA(c, "")["parseInt"]
+	if fn == nil {
+		if f := c.LookupFunc("", "builtinGlobalParseInt"); f != nil {
+			fn = c.SSAFunc(f)
+		}
+	}
+	tCall := c.LookupType("", "FunctionCall")
+	if fn == nil || tCall == nil {
+		r.undecided("anchor", "-", "UNRESOLVED: the function bound to parseInt / FunctionCall")
+		return
+	}
+	cst := tCall.Underlying().(*types.Struct)
+	cArgs := -1
+	for i := 0; i < cst.NumFields(); i++ {
+		if cst.Field(i).Name() == "ArgumentList" {
+			cArgs = i
+		}
+	}
+	var input string
+	var radix int64
+	var parsed []string
+	result := ""
+	digit := func(ch byte) int64 {
+		switch {
+		case '0' <= ch && ch <= '9':
+			return int64(ch - '0')
+		case 'a' <= ch && ch <= 'z':
+			return int64(ch-'a') + 10
+		case 'A' <= ch && ch <= 'Z':
+			return int64(ch-'A') + 10
+		}
+		return 36
+	}
+	hooks := map[string]absHook{
+		"(Value).string": func(in *absInterp, call *ssa.CallCommon, args []aval) (aval, bool) { return aStr(input), true },
+		"strings.Trim": func(in *absInterp, call *ssa.CallCommon, args []aval) (aval, bool) {
+			s, _ := args[0].(aStr)
+			t := string(s)
+			for len(t) > 0 && t[0] == ' ' {
+				t = t[1:]
+			}
+			for len(t) > 0 && t[len(t)-1] == ' ' {
+				t = t[:len(t)-1]
+			}
+			return aStr(t), true
+		},
+		"Trim": nil,
+		"toInt32": func(in *absInterp, call *ssa.CallCommon, args []aval) (aval, bool) { return aInt(radix), true },
+		"digitValue": func(in *absInterp, call *ssa.CallCommon, args []aval) (aval, bool) {
+			n, _ := args[0].(aInt)
+			return aInt(digit(byte(n))), true
+		},
+		"NaNValue": func(in *absInterp, call *ssa.CallCommon, args []aval) (aval, bool) {
+			result = "NaN"
+			return m.mkValue(in, "NaN"), true
+		},
+		"int64Value": func(in *absInterp, call *ssa.CallCommon, args []aval) (aval, bool) {
+			n, _ := args[0].(aInt)
+			result = fmt.Sprintf("value*%d", int64(n)/7)
+			return m.mkValue(in, "number"), true
+		},
+	}
+	delete(hooks, "Trim")
+	parse := func(in *absInterp, call *ssa.CallCommon, args []aval) (aval, bool) {
+		s, _ := args[0].(aStr)
+		b, _ := args[1].(aInt)
+		parsed = append(parsed, fmt.Sprintf("%q base %d", string(s), int64(b)))
+		if len(s) == 0 {
+			return aTuple{aInt(0), aIface{dyn: types.Universe.Lookup("error").Type(), v: aAtom{"syntax error"}}}, true
+		}
+		return aTuple{aInt(7), aIface{}}, true
+	}
+	hooks["strconv.ParseInt"] = parse
+	hooks["ParseInt"] = parse
+	hooks["errors.Is"] = func(in *absInterp, call *ssa.CallCommon, args []aval) (aval, bool) { return aBool(false), true }
+	hooks["Is"] = hooks["errors.Is"]
+	in := newAbsInterp(hooks)
+	inputs := []string{"", "-", "+", "0x", "0X1f", "-0x1", "+0X", "0x1g", "0xg", "00x1", "x1", "1", "10", "z", "7 ", "0", "-7", "0x"}
+	radices := []int64{0, 1, 2, 10, 16, 36, 37}
+	n, bad, fail := 0, "", ""
+	for _, input = range inputs {
+		for _, radix = range radices {
+			n++
+			parsed, result = nil, ""
+			call := in.zero(tCall).(aStruct)
+			elems := []aval{m.mkValue(in, "text"), m.mkValue(in, "radix")}
+			call.f[cArgs] = aSlice{arr: aRef{root: &acell{v: aArr{e: elems}, name: "args"}}, n: 2}
+			_, pan, f := absRun(in, fn, []aval{call})
+			if f != "" || pan != nil {
+				fail = f + describeAvalOrNil(pan)
+				continue
+			}
+			// ES5 15.1.2.2
+			s := input
+			for len(s) > 0 && s[len(s)-1] == ' ' {
+				s = s[:len(s)-1]
+			}
+			sign := int64(1)
+			if len(s) > 0 && (s[0] == '+' || s[0] == '-') {
+				if s[0] == '-' {
+					sign = -1
+				}
+				s = s[1:]
+			}
+			R, strip := radix, true
+			want := ""
+			switch {
+			case R != 0 && (R < 2 || R > 36):
+				want = "NaN"
+			case R != 0 && R != 16:
+				strip = false
+			case R == 0:
+				R = 10
+			}
+			if want == "" {
+				if strip && len(s) >= 2 && s[0] == '0' && (s[1] == 'x' || s[1] == 'X') {
+					s = s[2:]
+					R = 16
+				}
+				z := 0
+				for z < len(s) && digit(s[z]) < R {
+					z++
+				}
+				if z == 0 {
+					want = "NaN"
+				} else {
+					want = fmt.Sprintf("%q base %d value*%d", s[:z], R, sign)
+				}
+			}
+			got := result
+			if result != "NaN" && len(parsed) > 0 {
+				got = parsed[len(parsed)-1] + " " + result
+			}
+			if got != want && bad == "" {
+				bad = fmt.Sprintf("parseInt(%q, %d): the function converts %s; ES5 15.1.2.2 converts %s", input, radix, orNothing(got), want)
+			}
+		}
+	}
+	site := c.Pos(fn.Pos())
+	switch {
+	case fail != "":
+		r.undecided("parseInt", site, "UNDECIDED: the abstract evaluator does not model "+fail)
+	case bad != "":
+		r.bad("parseInt", site, "deviates from ES5: "+bad)
+	default:
+		r.ok("parseInt", site, fmt.Sprintf("%d cases agree with ES5", n))
+	}
+}
+
+func orNothing(s string) string {
+	if s == "" {
+		return "(nothing)"
+	}
+	return s
+}
